@@ -37,7 +37,8 @@ def coqc_file(relpath, timeout=900):
     cmd = ["bash", "-c", "ulimit -v %d; exec coqc -q -w -notation-overridden,-deprecated-hint-without-locality,"
            "-deprecated-instance-without-locality -Q Base Verif -Q Gen Verif -Q Model Verif -Q Proofs Verif "
            "-Q Properties Verif -Q Extract Verif %s" % (common.COQ_MEM_KB, relpath)]
-    return common.run(cmd, cwd=d, timeout=timeout)
+    with common.Lock("coq"):     # Properties files shared by several checks (e.g. Properties_C05_sync.v) must not be compiled by two at once
+        return common.run(cmd, cwd=d, timeout=timeout)
 
 
 def coq_eval(name, imports, body, timeout=900):
@@ -140,7 +141,23 @@ def prove_file(mod, ctx, pf, build_deps=True):
     else:
         res["discharged"] = len(thms)
     # one block per `Print Assumptions` command: either the closed-context line or an `Axioms:` list (indented lines)
-    blocks = re.findall(r"^(Closed under the global context|Axioms:\n(?:[ \t]+.*\n?)+)", r.stdout, flags=re.M)
+    # Coq 8.16 prints either the single line `Closed under the global context` or `Axioms:` followed by one
+    # `name : type` entry per axiom (not indented; a type may continue on indented lines)
+    blocks, cur = [], None
+    for line in r.stdout.splitlines():
+        if line.strip() == "Closed under the global context":
+            if cur is not None:
+                blocks.append(cur)
+                cur = None
+            blocks.append("Closed under the global context")
+        elif line.strip() == "Axioms:":
+            if cur is not None:
+                blocks.append(cur)
+            cur = "Axioms:"
+        elif cur is not None:
+            cur += "\n" + line
+    if cur is not None:
+        blocks.append(cur)
     res["assumptions_printed"] = [" ".join(b.split()) for b in blocks]
     npa = len(re.findall(r"^\s*Print Assumptions\b", re.sub(r"\(\*.*?\*\)", "", open(os.path.join(d, pf)).read(), flags=re.S), flags=re.M))
     if r.returncode == 0 and npa != len(blocks):
@@ -177,8 +194,12 @@ def main(argv):
         deps = list(getattr(mod, "COQ_DEPS", []))
         if deps:
             common.coq_make(deps, timeout=getattr(mod, "COQ_TIMEOUT", 1500))   # the model's .vo must match the regenerated Gen
-        rc = mod.replay(ctx, obj) if hasattr(mod, "replay") else 2
-        return rc
+        try:
+            rc = mod.replay(ctx, obj) if hasattr(mod, "replay") else 2
+        except Exception:
+            print("replay crashed (nothing can be concluded from this run):\n" + traceback.format_exc()[-2000:])
+            return 2
+        return rc if isinstance(rc, int) else 2
 
     broken = []       # ties / proofs that no longer check (not yet a violation of the property)
     failures = []     # concrete failing inputs: dict(key, what, replay)
@@ -191,7 +212,7 @@ def main(argv):
     else:
         common.sync_coq_copy()
         errs = common.run_src2v()
-        rel = [e for e in errs if any(m in e for m in getattr(mod, "GEN_MODULES", [""]))] if errs else []
+        rel = [e for e in errs if any(m in e for m in getattr(mod, "GEN_MODULES", [""])) or "Gen_" not in e] if errs else []
         for e in rel:
             broken.append({"what": "translation", "detail": e})
         try:
@@ -204,6 +225,9 @@ def main(argv):
             corr = mod.correspond(ctx)
         except Exception as e:  # noqa
             corr["mismatches"] = [{"what": "correspondence harness crashed", "detail": traceback.format_exc()[-2500:]}]
+        if int(corr.get("evaluations", 0) or 0) <= 0 and not corr.get("mismatches"):
+            corr.setdefault("mismatches", []).append({"what": "the correspondence produced no evaluation at all (harness printed nothing?): "
+                                                              "nothing ties the model to the code in this run"})
         for m in corr.get("mismatches", []):
             broken.append({"what": "correspondence", "detail": m})
         failures = list(corr.get("failures", []))
